@@ -183,7 +183,7 @@ PROPS = {
                 "client / acceptor, handler Stop, listener error, undecodable message} x role x injection point {before logon, inside a half-delivered Logon, logged idle, mid-traffic with 1-3 "
                 "application senders and a bursty segmenting peer in flight (optionally with a message cut in the middle, optionally congested: the peer stopped reading just before), during logout} x buffer {0,1,10} x a drawn position in the "
                 "interleaving (0-80 yields, optional delay) x seeded schedule; post-conditions after the settle bound S: socket closed, serving call returned, notification, later "
-                "sends return, census of library goroutines (runtime.Stack filtered to library frames) empty; distinct = distinct context-switch-sequence hash; non-trivial = the "
+                "sends return, census of library goroutines (runtime.Stack filtered to library frames) empty; a run that reaches the step limit after the cause (something keeps running and never blocks) is a violation of class livelock; distinct = distinct context-switch-sequence hash; non-trivial = the "
                 "fault actually fired; model_states_visited lists the (role, cause, point) triples reached",
         "mandatory_probes": ["traffic_in_flight", "cause_inside_message", "write_error", "short_write", "write_deadline", "read_error", "local_close", "handler_stop", "undecodable_message"],
         "assumptions": ASSUME,
